@@ -1,5 +1,6 @@
 SPECIFICATION Spec
 CONSTANT MaxDepth = 3
+CONSTANT RaiseKinds = {0, 1, 2, 3}
 CONSTANT MaxLen = 6
 INVARIANT TypeOK
 INVARIANT NestConj
